@@ -12,7 +12,7 @@ type Node struct {
 }
 
 // TableOf maps model names to table names.
-var TableOf = map[string]string{"User": "users", "Company": "companies", "Account": "accounts", "Pet": "pets", "Toy": "toys", "Language": "languages", "Note": "notes"}
+var TableOf = map[string]string{"User": "users", "Company": "companies", "Account": "accounts", "Pet": "pets", "Toy": "toys", "Language": "languages", "Note": "notes", "Memo": "memos"}
 
 func pk(v uint) string {
 	if v == 0 {
